@@ -98,20 +98,22 @@ IsMsgTyped(s) == s.type \in {"message", "group"} \/ IsMap(s)
 IsEnumTyped(s) == s.type \in {"enumE", "enumNE"}
 Packable(s) == ~IsMap(s) /\ s.type \in {"int32", "enumE", "enumNE"}      \* numeric, bool and enum types; never string / bytes / message
 
-(* features the legacy syntaxes spell with keywords / options ("feature inference" of the editions design) *)
-Inferred(syn, s) ==
-  LET a == IF syn = "proto2" /\ s.lab = "required" THEN [field_presence |-> "LEGACY_REQUIRED"]
-           ELSE IF syn = "proto3" /\ s.lab = "optional" THEN [field_presence |-> "EXPLICIT"] ELSE <<>>
-      b == IF s.type = "group" THEN [message_encoding |-> "DELIMITED"] ELSE <<>>
-      c == CASE s.packed = "true" -> [repeated_field_encoding |-> "PACKED"]
-             [] s.packed = "false" -> [repeated_field_encoding |-> "EXPANDED"]
-             [] OTHER -> <<>>
-  IN [f \in (DOMAIN a) \cup (DOMAIN b) \cup (DOMAIN c) |->
-        IF f \in DOMAIN a THEN a[f] ELSE IF f \in DOMAIN b THEN b[f] ELSE c[f]]
+(* features the legacy syntaxes spell with keywords / options ("feature inference" of the editions design):
+   proto2 `required` = LEGACY_REQUIRED, proto3 `optional` = EXPLICIT, proto2 group = DELIMITED, [packed = true / false] =
+   PACKED / EXPANDED.  "" = nothing inferred for feature f. *)
+Inferred(syn, s, f) ==
+  CASE f = "field_presence" ->
+         IF syn = "proto2" /\ s.lab = "required" THEN "LEGACY_REQUIRED"
+         ELSE IF syn = "proto3" /\ s.lab = "optional" THEN "EXPLICIT" ELSE ""
+    [] f = "message_encoding" -> IF s.type = "group" THEN "DELIMITED" ELSE ""
+    [] f = "repeated_field_encoding" ->
+         IF s.packed = "true" THEN "PACKED" ELSE IF s.packed = "false" THEN "EXPANDED" ELSE ""
+    [] OTHER -> ""
 
 (* resolved feature of field spec s of file F, as the editions design defines it for every syntax *)
 FieldChain(F, s) == <<s.ov>> \o ScopeChain(F, s.scope)
-FieldFeature(F, s, f) == Walk(<<Inferred(F.syntax, s)>> \o FieldChain(F, s), F.syntax, f)
+FieldFeature(F, s, f) == LET i == Inferred(F.syntax, s, f) IN
+                         IF i # "" THEN i ELSE Walk(FieldChain(F, s), F.syntax, f)
 
 EnumChain(F, e) == IF e = "E" THEN <<F.eov, F.fov>> ELSE <<F.neov, F.mov, F.fov>>
 EnumFeature(F, e, f) == Walk(EnumChain(F, e), F.syntax, f)
